@@ -493,9 +493,11 @@ impl Server {
                 continue;
             }
             
+            // By now the key may hold something else than a list (pushed, deleted and set again
+            // in one batch): that is "no data" for the waiters, not a reason to stop the server
             let value = match client.op_type {
-                super::connection::BlockingOp::BLPop => self.storage.lpop(wakeup.db, &wakeup.key)?,
-                super::connection::BlockingOp::BRPop => self.storage.rpop(wakeup.db, &wakeup.key)?,
+                super::connection::BlockingOp::BLPop => self.storage.lpop(wakeup.db, &wakeup.key).unwrap_or(None),
+                super::connection::BlockingOp::BRPop => self.storage.rpop(wakeup.db, &wakeup.key).unwrap_or(None),
                 super::connection::BlockingOp::XReadBlock(_) => {
                     // XReadBlock not implemented yet
                     self.blocking_manager.unregister_client(wakeup.db, client.conn_id)?;
